@@ -206,6 +206,12 @@ def _fn(name, args):
     if name == "power":
         if not (c or _cplx(args[1])) and a < 0 and not float(args[1]).is_integer():
             raise ValueError("negative base with non-integer exponent")
+        if isinstance(a, (int, np.integer)) and isinstance(args[1], (int, np.integer)):
+            # C's pow() works on doubles; Python's int ** int would build an exact (astronomically large) integer
+            try:
+                return math.pow(float(a), float(args[1]))
+            except OverflowError:
+                return math.inf
         return a ** args[1]
     if name == "erf":
         return math.erf(a)
